@@ -162,6 +162,9 @@ InvEvents        == (Tx /\ last.r.ok) => Flatten(last.r.resps) = EventsOfLog(las
 InvScriptUsed    == Tx => last.r.used = Len(last.sc)                     \* lazily built: nothing unused
 InvOneRespPerMsg == (Tx /\ last.r.ok /\ last.call.k = "execute") => Len(last.r.resps) = Len(last.call.msgs)  \* C01
 
+DbgEffective == Tx => (PostIsEffective(last.pre, last.r)
+                        \/ (PrintT(<<"BAD", last.call, last.sc, "post", last.r.post, "eff", EffectiveState(last.pre, last.r.log, Len(last.r.log) + 1)>>) /\ FALSE))
+
 (* C08: an invocation changes only the invoked contract's own key space *)
 InvPrivate ==
     Tx => \A j \in 1..Len(last.r.log) :
@@ -185,7 +188,8 @@ Script ==
       rlog    |-> IF last.tx THEN last.r.rlog ELSE <<>>,
       post    |-> root,
       codes   |-> last.codes,
-      block   |-> last.block ]
+      block   |-> last.block,
+      mods    |-> Mods ]
 
 Emit == last.on => PrintT(ToJson(Script))
 =============================================================================
